@@ -8,6 +8,7 @@ import (
 	"sync"
 
 	"github.com/la5nta/wl2k-go/fbb"
+	"github.com/la5nta/wl2k-go/mailbox"
 
 	"verif/core"
 	"verif/link"
@@ -29,6 +30,16 @@ type c02Scn struct {
 	// DupOut: indices of a side's own messages that its mailbox offers twice while pending (two
 	// copies in the outbox, as Radio Only gateways are known to do: the library handles the case)
 	DupOut [2][]int
+	// Dir: both stations use the real mailbox.DirHandler in a directory on tmpfs (messages addressed
+	// to the peer, as the directory mailbox only offers those to a peer that names itself)
+	Dir bool
+}
+
+func toPeer(specs []sess.MsgSpec, peer string) []sess.MsgSpec {
+	for i := range specs {
+		specs[i].To = peer
+	}
+	return specs
 }
 
 func c02Scenarios() []c02Scn {
@@ -66,6 +77,10 @@ func c02Scenarios() []c02Scn {
 		{Name: "A2att-B2att-batched", Specs: [2][]sess.MsgSpec{att("A", 2), att("B", 2)}, Batched: true},
 		{Name: "A2-first-offered-twice", Specs: [2][]sess.MsgSpec{m("A", 2), nil}, MasterB: true, DupOut: [2][]int{{0}, nil}},
 		{Name: "A1-offered-twice-B1-Amaster", Specs: [2][]sess.MsgSpec{m("A", 1), m("B", 1)}, DupOut: [2][]int{{0}, nil}},
+		{Name: "dir-A1-B0-Aslave", Specs: [2][]sess.MsgSpec{toPeer(m("A", 1), "N0BBB"), nil}, MasterB: true, Dir: true},
+		{Name: "dir-A2-B1", Specs: [2][]sess.MsgSpec{toPeer(m("A", 2), "N0BBB"), toPeer(m("B", 1), "N0AAA")}, MasterB: true, Dir: true},
+		{Name: "dir-A2-B1-one-preheld-Amaster", Specs: [2][]sess.MsgSpec{toPeer(m("A", 2), "N0BBB"), toPeer(m("B", 1), "N0AAA")}, PreHeld: [2][]int{nil, {0}}, Dir: true},
+		{Name: "dir-A3-B2-Amaster", Specs: [2][]sess.MsgSpec{toPeer(m("A", 3), "N0BBB"), toPeer(m("B", 2), "N0AAA")}, Dir: true, Thorough: true},
 		{Name: "A7-B6", Specs: [2][]sess.MsgSpec{m("A", 7), m("B", 6)}, MasterB: true, Thorough: true},
 		{Name: "A2big-B0-Amaster", Specs: [2][]sess.MsgSpec{big("A", 2), nil}, Thorough: true},
 	}
@@ -147,8 +162,36 @@ func (c *c02Ctx) initial() c02State {
 	return s
 }
 
-func (c *c02Ctx) boxes(s c02State) [2]*sess.Box {
-	var bx [2]*sess.Box
+// dirBoxes builds the two directory mailboxes in state s with the handler's own operations.
+func (c *c02Ctx) dirBoxes(s c02State) [2]c02Box {
+	var bx [2]c02Box
+	for i := 0; i < 2; i++ {
+		b := newDirBox()
+		for k, m := range c.msgs[i] {
+			if err := b.h.AddOut(c.sc.Specs[i][k].Build(c.calls[i])); err != nil {
+				core.Infra("AddOut: %v", err)
+			}
+			if s.Own[i][k] != 0 {
+				b.h.SetSent(m.MID(), s.Own[i][k] == 2)
+			}
+		}
+		for k, h := range s.Held[i] {
+			if h {
+				if err := b.h.ProcessInbound(c.sc.Specs[1-i][k].Build(c.calls[1-i])); err != nil {
+					core.Infra("ProcessInbound: %v", err)
+				}
+			}
+		}
+		bx[i] = b
+	}
+	return bx
+}
+
+func (c *c02Ctx) boxes(s c02State) [2]c02Box {
+	if c.sc.Dir {
+		return c.dirBoxes(s)
+	}
+	var bx [2]c02Box
 	for i := 0; i < 2; i++ {
 		b := sess.NewBox([]string{"A", "B"}[i])
 		b.Batched = c.sc.Batched
@@ -176,7 +219,7 @@ func (c *c02Ctx) boxes(s c02State) [2]*sess.Box {
 		for _, k := range c.sc.DeferMID[i] {
 			b.Policy[c.msgs[1-i][k].MID()] = '='
 		}
-		bx[i] = b
+		bx[i] = memBox{b}
 	}
 	return bx
 }
@@ -205,8 +248,10 @@ func (c *c02Ctx) plan(f c02Fault) link.Plan {
 // step runs one session from state s under fault f and checks the per-transition invariants.
 func (c *c02Ctx) step(s c02State, f c02Fault) c02Result {
 	bx := c.boxes(s)
+	defer bx[0].Close()
+	defer bx[1].Close()
 	if f.Kind == "storage" {
-		bx[f.Side].FailInboundAt = f.J
+		bx[f.Side].FailAt(f.J)
 	}
 	st := [2]sess.Station{
 		{Call: c.calls[0], Locator: "JO39EQ", Master: !c.sc.MasterB, Handler: bx[0].Handler()},
@@ -275,6 +320,27 @@ func (c *c02Ctx) step(s c02State, f c02Fault) c02Result {
 				r.Next.Own[i][k] = 2
 			} else {
 				r.Next.Own[i][k] = 1
+			}
+		}
+	}
+	// the directory mailbox's ground truth: what is on disk agrees with what was reported
+	for i := 0; i < 2; i++ {
+		db, ok := bx[i].(*dirBox)
+		if !ok {
+			continue
+		}
+		if db.Misuse != "" {
+			return fail("setsent-for-message-not-in-outbox", "%s", db.Misuse)
+		}
+		for k, m := range c.msgs[i] {
+			pending, sent := db.has(mailbox.DIR_OUTBOX, m.MID()), db.has(mailbox.DIR_SENT, m.MID())
+			if pending == sent || pending != (r.Next.Own[i][k] == 0) {
+				return fail("directory-disagrees-with-reported-outcome", "%s: in out/: %v, in sent/: %v, reported state %d", m.MID(), pending, sent, r.Next.Own[i][k])
+			}
+		}
+		for k, m := range c.msgs[1-i] {
+			if held := db.has(mailbox.DIR_INBOX, m.MID()); held != r.Next.Held[i][k] {
+				return fail("directory-disagrees-with-reported-outcome", "%s: in in/: %v, ProcessInbound completed: %v", m.MID(), held, r.Next.Held[i][k])
 			}
 		}
 	}
@@ -443,15 +509,8 @@ func C02(args []string) {
 		"distinct_nontrivial":           r.Nontrivial.Load(),
 		"rule":                          "states = canonical mailbox states (per message: pending/sent/rejected at the sender, held or not at the receiver) reached by BFS to a fixpoint; one transition = one complete two-station session from a state under one fault plan (every cut offset in each direction x loss/write-failure/reset variants; storage error at every inbound index; thorough: all cut pairs); non-trivial = the session delivered at least one message before or despite the fault (each (state, fault) pair is distinct)",
 	}
-	if c02DirHook != nil {
-		for k, v := range c02DirHook(r) {
-			cov[k] = v
-		}
-	}
 	r.Finish(cov, []string{
 		"a link failure is coupled: when one reader sees the failure the other direction dies too (in-flight bytes delivered or lost, writes failing at once or never: enumerated)",
-		"in-memory reference handler; the real directory mailbox is exercised by the dirhandler_* part when present",
+		"in-memory reference handler, and the real mailbox.DirHandler on tmpfs in the dir-* scenarios",
 	})
 }
-
-var c02DirHook func(r *core.Run) core.Coverage
